@@ -119,8 +119,54 @@ func denoteSrc(v interface{}) srcDen {
 		}
 	default:
 		d.num = bigOf(v)
+		if d.num == nil && v != nil {
+			// a named Go type (type Count int) denotes what its underlying kind denotes
+			switch rv := reflect.ValueOf(v); rv.Kind() {
+			case reflect.Int, reflect.Int8, reflect.Int16, reflect.Int32, reflect.Int64:
+				d.num = new(big.Rat).SetInt64(rv.Int())
+			case reflect.Uint, reflect.Uint8, reflect.Uint16, reflect.Uint32, reflect.Uint64:
+				d.num = new(big.Rat).SetInt(new(big.Int).SetUint64(rv.Uint()))
+			case reflect.Float32, reflect.Float64:
+				if f := rv.Float(); math.IsNaN(f) || math.IsInf(f, 0) {
+					d.nan = true
+				} else {
+					d.num = new(big.Rat).SetFloat64(f)
+				}
+			case reflect.String:
+				return denoteSrcAs(d.kind, rv.String())
+			case reflect.Bool:
+				b := rv.Bool()
+				d.b = &b
+			}
+		}
 	}
 	return d
+}
+
+func denoteSrcAs(kind string, text string) srcDen {
+	d := denoteSrc(text)
+	d.kind = kind
+	return d
+}
+
+// named Go types over the scalar kinds: sources a caller's own data structures hand to the conversion
+type (
+	c10Int   int
+	c10Int8  int8
+	c10Int64 int64
+	c10Uint  uint
+	c10U16   uint16
+	c10U64   uint64
+	c10F64   float64
+	c10Str   string
+	c10Bool  bool
+)
+
+func c10namedSources() []interface{} {
+	return []interface{}{c10Int(-1), c10Int(0), c10Int(5), c10Int(-129), c10Int(70000), c10Int(math.MinInt64), c10Int8(-128), c10Int8(-1), c10Int8(127), c10Int64(-1), c10Int64(math.MinInt64), c10Int64(math.MaxInt64),
+		c10Int64(1 << 40), c10Uint(0), c10Uint(300), c10Uint(math.MaxUint64), c10U16(65535), c10U16(7), c10U64(1 << 63), c10U64(math.MaxUint64), c10U64(255), c10F64(-1), c10F64(2), c10F64(3e9), c10F64(1 << 60), // whole numbers: the text of a float64 with a fraction part is the known finding string<-float64
+
+		c10Str("5"), c10Str("-1"), c10Str("x"), c10Str(""), c10Bool(true), c10Bool(false)}
 }
 
 func magClass(r *big.Rat) string {
@@ -190,6 +236,7 @@ func c10scalarSources() []interface{} {
 	out = append(out, "", " ", " 5", "5 ", "+5", "05", "-0", "0x10", "1e2", "1_000", "５", "abc", "true", "false", "1", "0", "yes", "no", "np", "on", "off", "nope", "maybe", "TRUE", "1.0", "1.", ".5", "--1",
 		"18446744073709551616", "-9223372036854775809", "340282366920938463463374607431768211456", true, false,
 		"aGVsbG8=", "@@@", "aGVsbG8", []byte("hello"), []byte{}, []byte{0, 255, 10})
+	out = append(out, c10namedSources()...)
 	return out
 }
 
